@@ -13,10 +13,12 @@ avars == <<phase, c, calls, remaining, batch, ret, exit, tries, plan, orphans>>
 
 Plan0 == [failDescribe |-> FALSE, failCreate |-> FALSE, noCapacity |-> FALSE, failSet |-> FALSE, failAttach |-> 0, failTerm |-> {}]
 
-Case(d, t0, never) == [min |-> 0, max |-> 5000, desired |-> 3, d |-> d, fleet |-> TRUE, lifecycle |-> "", types |-> 0, subnets |-> 1, tagging |-> FALSE,
-                        never |-> never, tries0 |-> t0, lo |-> 0]
+\* never: not every instance reports "running" before the deadline; ready: how many of them do (the first `ready` ids)
+Case(d, t0, never, rk) == [min |-> 0, max |-> 5000, desired |-> 3, d |-> d, fleet |-> TRUE, lifecycle |-> "", types |-> 0, subnets |-> 1, tagging |-> FALSE,
+                        never |-> never, ready |-> rk, tries0 |-> t0, lo |-> 0]
 
-AInit == /\ \E d \in FleetSizes, t0 \in Tries0Set, nv \in BOOLEAN : c = Case(d, t0, nv)
+AInit == /\ \E d \in FleetSizes, t0 \in Tries0Set, nv \in BOOLEAN :
+              \E rk \in (IF nv THEN {0, 1, d - 1} \cap 0..(d - 1) ELSE {d}) : c = Case(d, t0, nv, rk)
          /\ phase = "start" /\ calls = <<>> /\ remaining = <<>> /\ batch = <<>> /\ ret = "none" /\ exit = FALSE /\ tries = c.tries0 /\ plan = Plan0 /\ orphans = <<>>
 
 Describe == /\ phase = "start"
@@ -31,7 +33,8 @@ Create == /\ phase = "described"
                 /\ plan' = [plan EXCEPT !.failCreate = TRUE] /\ UNCHANGED remaining
           /\ UNCHANGED <<c, batch, exit, tries, orphans>>
 
-\* all instances running at the first poll, or the deadline passes first
+\* all instances running at the first poll, or the deadline passes first (with none, some or all but one of them running):
+\* whatever was created and is not attached is an orphan
 Wait == /\ phase = "waiting"
         /\ \/ /\ ~c.never /\ calls' = Append(calls, AC("status", TRUE, c.d, 1, <<>>)) /\ phase' = "attaching" /\ UNCHANGED orphans
            \/ /\ c.never /\ orphans' = remaining /\ phase' = "terminating" /\ UNCHANGED calls
@@ -79,7 +82,7 @@ InvExit == exit => tries >= MaxTries
 SetToSeq0(S) == LET RECURSIVE F(_) F(T) == IF T = {} THEN <<>> ELSE LET x == CHOOSE x \in T : \A y \in T : x <= y IN <<x>> \o F(T \ {x}) IN F(S)
 EmitDone == ADone => PrintT(ToJson([kind |-> "CASE", case |->
    [kind |-> "inc", min |-> c.min, max |-> c.max, desired |-> c.desired, nmemb |-> c.desired, d |-> c.d, fleet |-> TRUE, lifecycle |-> c.lifecycle,
-    types |-> c.types, subnets |-> c.subnets, tagging |-> c.tagging, never |-> c.never, prefail |-> c.tries0,
+    types |-> c.types, subnets |-> c.subnets, tagging |-> c.tagging, never |-> c.never, readyK |-> c.ready, prefail |-> c.tries0,
     failDescribe |-> plan.failDescribe, failCreate |-> plan.failCreate, noCapacity |-> plan.noCapacity, failSet |-> FALSE,
     failAttach |-> plan.failAttach, failTerm |-> SetToSeq0(plan.failTerm), failNodes |-> <<>>, list |-> <<>>]]))
 =============================================================================
